@@ -9,6 +9,7 @@ mod c05;
 mod c06;
 mod c07;
 mod c08;
+mod c09;
 mod c10;
 mod c11;
 mod c12;
@@ -36,6 +37,7 @@ fn dispatch(ctx: &Ctx, replay: Option<&serde_json::Value>) {
         "C06" => c06::run(ctx, replay),
         "C07" => c07::run(ctx, replay),
         "C08" => c08::run(ctx, replay),
+        "C09" => c09::run(ctx, replay),
         "C10" => c10::run(ctx, replay),
         "C11" => c11::run(ctx, replay),
         "C12" => c12::run(ctx, replay),
@@ -55,6 +57,10 @@ fn dispatch(ctx: &Ctx, replay: Option<&serde_json::Value>) {
 fn main() {
     vcore::util::install_panic_hook();
     let args: Vec<String> = std::env::args().collect();
+    if args.len() >= 2 && args[1] == "--c09-worker" {
+        c09::worker();
+        return;
+    }
     if args.len() >= 3 && args[1] == "--replay" {
         let v = vcore::runner::read_json(std::path::Path::new(&args[2]));
         let prop = v["property"].as_str().expect("replay file without property").to_string();
